@@ -203,8 +203,88 @@ func genC17(t *rapid.T) PairCase {
 			p.ArrayBias = 70
 			p.MaxArr = 8
 		}
+		if gen.Chance(t, "nasty", 30) {
+			p.NastyKeys = true
+			p.Payload = true
+		}
 	})
 }
+
+// ---- C17 through the top-level binary with -v2=false
+
+func checkC17CLI(c CarrierCLICase, r *rec.Rec) error {
+	if !haveCLI() {
+		return inconclusive{"jd binaries not built"}
+	}
+	viol := rec.Violated
+	md := v1Metadata(c.Opts)
+	if jdx.SetKeysOf(c.Opts) != nil && jdx.Reading(c.Opts) == val.Set {
+		var d v1.Diff
+		jdx.Guard(func() { d = v1Node(c.A).Diff(v1Node(c.B), md...) })
+		if v1SameMemberTwice(d) {
+			viol = func(f string, a ...interface{}) error { return rec.Known("D27", f, a...) }
+		}
+	}
+	dir, cleanup := caseDir()
+	defer cleanup()
+	writeFile(dir, "a", c.A)
+	writeFile(dir, "b", c.B)
+	flags := append([]string{"-v2=false"}, optFlags(c.Opts)...)
+	res := runCLI("jd-top", append(append([]string{}, flags...), "a", "b"), nil, dir)
+	if err := cliTrouble(res); err != nil {
+		return err
+	}
+	desc := fmt.Sprintf("jd-top %s a b (a=%s b=%s)", strings.Join(flags, " "), c.A, c.B)
+	if res.Status != 0 && res.Status != 1 {
+		return viol("%s exits %d: %s", desc, res.Status, res.Stderr)
+	}
+	equal := v1Node(c.A).Equals(v1Node(c.B), md...)
+	if (res.Status == 0) != equal {
+		return viol("%s exits %d but Equals under the metadata is %v", desc, res.Status, equal)
+	}
+	want := v1Node(c.A).Diff(v1Node(c.B), append(md, v1.SetPrecision(0))...).Render()
+	// -f=merge selects the merge patch text, which is not what Render gives
+	if !jdx.IsMerge(c.Opts) && res.Stdout != want {
+		return viol("%s prints\n%q\nthe v1 library renders\n%q", desc, res.Stdout, want)
+	}
+	writeFile(dir, "d", res.Stdout)
+	resP := runCLI("jd-top", append(append([]string{"-p"}, flags...), "d", "a"), nil, dir)
+	if err := cliTrouble(resP); err != nil {
+		return err
+	}
+	if resP.Status != 0 {
+		return viol("%s: the printed diff does not apply with -p (status %d): %s\ndiff:\n%s", desc, resP.Status, resP.Stderr, res.Stdout)
+	}
+	got, err := v1.ReadJsonString(resP.Stdout)
+	if err != nil {
+		return viol("%s: -p prints unreadable JSON %q", desc, resP.Stdout)
+	}
+	if !got.Equals(v1Node(c.B), md...) {
+		return viol("%s: the printed diff applied with -p gives %s, not b\ndiff:\n%s", desc, resP.Stdout, res.Stdout)
+	}
+	nontrivial := res.Status == 1
+	r.Case(fmt.Sprintf("%v", c), nontrivial, "opts="+c.Opts)
+	if nontrivial {
+		r.Sample(c)
+	}
+	return nil
+}
+
+func genC17CLI(t *rapid.T) CarrierCLICase {
+	pc := genPairCase(t, []string{"list", "list", "set", "mset", "set+setkeys:id", "merge"}, func(p *gen.Profile) {
+		p.Payload = true
+		p.NastyKeys = gen.Chance(t, "nasty", 40)
+		p.VoidRoot = gen.Chance(t, "void", 10)
+	})
+	if jdx.IsMerge(pc.Opts) && (strings.TrimSpace(pc.A) == "" || strings.TrimSpace(pc.B) == "") {
+		pc.Opts = "list" // a merge patch document cannot say "no document"
+	}
+	return CarrierCLICase{A: pc.A, B: pc.B, Opts: pc.Opts, Bin: "jd-top-v1"}
+}
+
+func init() { Register("C17", "cli", checkC17CLI) }
+
+func TestC17CLI(t *testing.T) { RunRandom(t, "C17", "cli", genC17CLI, checkC17CLI) }
 
 // ---------------------------------------------------------------- C18
 
